@@ -73,6 +73,68 @@ theorem closed_star_solves (A al l a0 a1 a2 t nmin : ℝ) (h0 : 0 < a0) (h1 : 0 
   refine hmul.congr_deriv ?_
   field_simp
 
+/-- what `sevDNdm` returns for an active bin (turn-off mass inside, more than `nmin` stars, truncated bin above `Pk`'s resolution) -/
+theorem sevDNdm_active (nmin Nj al l m : ℝ) (hm : l < m) (hact : nmin < Nj) (hres : (resolution : ℝ) ≤ PkCore al 1 l m) :
+    (sevDNdm nmin Nj al l m).1 = Nj / PkCore al 1 l m * m ^ al := by
+  unfold sevDNdm
+  have c1 : Scalar.lt l m = true := by rw [real_lt]; exact hm
+  have c2 : Scalar.lt nmin Nj = true := by rw [real_lt]; exact hact
+  simp only [c1, c2, Bool.and_self, if_true, real_one]
+  rw [C12.Pk_some_of_ge al 1 l m hres]
+  simp only [real_rpow]
+
+/-- **uniqueness while the bin is draining**: any `N` that obeys the code's ODE for the turn-off bin on `[t0, t1]` (more than `nmin`
+    stars, truncated bin above `Pk`'s resolution throughout) and starts on the closed form stays on it: `N/Pk(α,1,l,m_to)` is conserved. -/
+theorem closed_star_unique (A al l a0 a1 a2 t0 t1 nmin : ℝ) (N : ℝ → ℝ) (h0 : 0 < a0) (h1 : 0 < a1) (h2 : a2 < 0)
+    (ht0 : a0 < t0) (hl : 0 < l)
+    (hm : ∀ t ∈ Set.Icc t0 t1, l < mtoFin a0 a1 a2 t)
+    (hact : ∀ t ∈ Set.Icc t0 t1, nmin < N t)
+    (hres : ∀ t ∈ Set.Icc t0 t1, (resolution : ℝ) ≤ PkCore al 1 l (mtoFin a0 a1 a2 t))
+    (hode : ∀ t ∈ Set.Icc t0 t1,
+      HasDerivAt N (-(sevDNdm nmin (N t) al l (mtoFin a0 a1 a2 t)).1 * dmdtAbs a0 a1 a2 t) t)
+    (hinit : N t0 = A * PkCore al 1 l (mtoFin a0 a1 a2 t0)) :
+    ∀ t ∈ Set.Icc t0 t1, N t = A * PkCore al 1 l (mtoFin a0 a1 a2 t) := by
+  set P : ℝ → ℝ := fun s => PkCore al 1 l (mtoFin a0 a1 a2 s) with hPdef
+  have hPpos : ∀ t ∈ Set.Icc t0 t1, 0 < P t := fun t ht => PkCore_pos al 1 l _ hl (hm t ht)
+  have hPd : ∀ t ∈ Set.Icc t0 t1, HasDerivAt P ((mtoFin a0 a1 a2 t) ^ al * dmdtRaw a0 a1 a2 t) t := by
+    intro t ht
+    have hta : a0 < t := lt_of_lt_of_le ht0 ht.1
+    have hd := mto_hasDerivAt a0 a1 a2 t h0 h1 h2.ne hta
+    exact (PkCore_hasDerivAt_upper al l _ hl (lt_trans hl (hm t ht))).comp t hd
+  have hq : ∀ t ∈ Set.Icc t0 t1, HasDerivAt (fun s => N s / P s) 0 t := by
+    intro t ht
+    have hta : a0 < t := lt_of_lt_of_le ht0 ht.1
+    have hneg := dmdtRaw_neg a0 a1 a2 t h0 h1 h2 hta
+    have habs : dmdtAbs a0 a1 a2 t = -dmdtRaw a0 a1 a2 t := by
+      unfold dmdtAbs; rw [real_abs, abs_of_neg hneg]
+    have hN := hode t ht
+    rw [sevDNdm_active nmin (N t) al l _ (hm t ht) (hact t ht) (hres t ht), habs] at hN
+    have hdiv := hN.div (hPd t ht) (hPpos t ht).ne'
+    refine hdiv.congr_deriv ?_
+    have hP0 : P t ≠ 0 := (hPpos t ht).ne'
+    have hP0' : PkCore al 1 l (mtoFin a0 a1 a2 t) ≠ 0 := hP0
+    show _ = (0:ℝ)
+    field_simp
+    ring
+  have hcont : ContinuousOn (fun s => N s / P s) (Set.Icc t0 t1) :=
+    fun t ht => (hq t ht).continuousAt.continuousWithinAt
+  have hconst := constant_of_has_deriv_right_zero hcont
+    (fun t ht => (hq t ⟨ht.1, ht.2.le⟩).hasDerivWithinAt)
+  intro t ht
+  have e := hconst t ht
+  have hP0 : P t ≠ 0 := (hPpos t ht).ne'
+  by_cases hle : t0 ≤ t1
+  · have ht0mem : t0 ∈ Set.Icc t0 t1 := ⟨le_rfl, hle⟩
+    have hP00 : P t0 ≠ 0 := (hPpos t0 ht0mem).ne'
+    have e' : N t / P t = N t0 / P t0 := e
+    rw [hinit] at e'
+    have hA : A * PkCore al 1 l (mtoFin a0 a1 a2 t0) / P t0 = A := by
+      show A * P t0 / P t0 = A
+      field_simp
+    rw [hA, div_eq_iff hP0] at e'
+    exact e'
+  · exact absurd (le_trans ht.1 ht.2) hle
+
 /-- the mass `m*` at which the bin is frozen: exactly `nmin` stars are left below it -/
 theorem mStar_spec (b : ClosedBin ℝ) (nmin : ℝ) (hl : 0 < b.l) (hlu : b.l < b.u) (hA : 0 < b.A) (hn : 0 ≤ nmin) (hact : nmin < b.n0) :
     b.A * PkCore b.a 1 b.l (b.mStar nmin) = nmin := by
@@ -200,6 +262,13 @@ structure Statement : Prop where
     nmin < A * PkCore al 1 l (mtoFin a0 a1 a2 t) → (resolution : ℝ) ≤ PkCore al 1 l (mtoFin a0 a1 a2 t) →
     HasDerivAt (fun s => A * PkCore al 1 l (mtoFin a0 a1 a2 s))
       (-(sevDNdm nmin (A * PkCore al 1 l (mtoFin a0 a1 a2 t)) al l (mtoFin a0 a1 a2 t)).1 * dmdtAbs a0 a1 a2 t) t
+  /-- … and it is the only solution that starts on the closed form (no other trajectory satisfies the code's ODE) -/
+  star_unique : ∀ (A al l a0 a1 a2 t0 t1 nmin : ℝ) (N : ℝ → ℝ), 0 < a0 → 0 < a1 → a2 < 0 → a0 < t0 → 0 < l →
+    (∀ t ∈ Set.Icc t0 t1, l < mtoFin a0 a1 a2 t) → (∀ t ∈ Set.Icc t0 t1, nmin < N t) →
+    (∀ t ∈ Set.Icc t0 t1, (resolution : ℝ) ≤ PkCore al 1 l (mtoFin a0 a1 a2 t)) →
+    (∀ t ∈ Set.Icc t0 t1, HasDerivAt N (-(sevDNdm nmin (N t) al l (mtoFin a0 a1 a2 t)).1 * dmdtAbs a0 a1 a2 t) t) →
+    N t0 = A * PkCore al 1 l (mtoFin a0 a1 a2 t0) →
+    ∀ t ∈ Set.Icc t0 t1, N t = A * PkCore al 1 l (mtoFin a0 a1 a2 t)
   deposit : ∀ (A al hi frem a0 a1 a2 t : ℝ), 0 < a0 → 0 < a1 → a2 < 0 → a0 < t → 0 < hi →
     HasDerivAt (fun s => frem * (A * PkCore al 1 (mtoFin a0 a1 a2 s) hi))
       (frem * (A * (mtoFin a0 a1 a2 t) ^ al * dmdtAbs a0 a1 a2 t)) t
@@ -218,6 +287,7 @@ structure Statement : Prop where
 theorem C01_partial : Statement where
   branch := predict_eq_predictAs
   star_solves := closed_star_solves
+  star_unique := closed_star_unique
   deposit := deposit_tracks_flux
   residue := stars_residue
   piece := pieceNM_exact
